@@ -279,6 +279,8 @@ class Wsdl11(XmlSchema):
                                                               service_name, url)
         applied_service_name = self._get_applied_service_name(service)
 
+        pref_tns = self.interface.get_namespace_prefix(self.interface.get_tns())
+
         port_binding_names = []
         port_type_list = service.get_port_types()
         if len(port_type_list) > 0:
@@ -316,14 +318,16 @@ class Wsdl11(XmlSchema):
 
             op_input = SubElement(operation, WSDL11("input"))
             op_input.set('name', method.in_message.get_element_name())
-            op_input.set('message',
-                          method.in_message.get_element_name_ns(self.interface))
+            # wsdl:message elements live in the target namespace of the
+            # definitions, whatever the namespace of the message class is
+            op_input.set('message', '%s:%s' % (pref_tns,
+                                          method.in_message.get_element_name()))
 
             if (not method.is_callback) and (not method.is_async):
                 op_output = SubElement(operation, WSDL11("output"))
                 op_output.set('name', method.out_message.get_element_name())
-                op_output.set('message', method.out_message.get_element_name_ns(
-                                                                self.interface))
+                op_output.set('message', '%s:%s' % (pref_tns,
+                                         method.out_message.get_element_name()))
 
                 if not (method.faults is None):
                     for f in method.faults:
